@@ -60,6 +60,14 @@ Example C08_degenerate :
   fst (clip_segment 0 10 5 5 (mkst (-3) 5 20 5)) = Accept /\ fst (clip_segment 0 10 5 5 (mkst (-3) (11 # 2) 20 (11 # 2))) = Reject.
 Proof. vm_compute. split; reflexivity. Qed.
 
+(* ... and the accepted segment covers the inside part: every point of the input segment inside the rectangle deflated by eps is
+   within eps of a point of the returned segment *)
+Theorem C08_judgement_covers : forall eps s xmin xmax ymin ymax r,
+  sandwich_ok eps s xmin xmax ymin ymax true r = true ->
+  forall u, 0 <= u <= 1 -> inside_rect (xmin + eps) (xmax - eps) (ymin + eps) (ymax - eps) (seg_x s u) (seg_y s u) ->
+  exists t, 0 <= t <= 1 /\ sq (seg_x s u - seg_x r t) + sq (seg_y s u - seg_y r t) <= sq eps.
+Proof. exact sandwich_covers_sound. Qed.
+
 Print Assumptions C08_result.
 Print Assumptions C08_accept_iff.
 Print Assumptions C08_no_div0.
@@ -67,3 +75,4 @@ Print Assumptions C08_measure.
 Print Assumptions C08_reference_interval.
 Print Assumptions C08_judgement_reject.
 Print Assumptions C08_judgement_accept.
+Print Assumptions C08_judgement_covers.
